@@ -58,7 +58,7 @@ PROPS["C05"] = dict(pkg="chain", level="exploration", stages=[
 ])
 
 PROPS["C04"] = dict(pkg="chain", level="exploration", stages=[
-    direct("preoak", "TestC04PreOak"),
+    direct("preoak", "TestC04PreOak", quick=dict(shards=2, timeout=900), thorough=dict(shards=3, timeout=3600)),
     direct("long-concurrent", "TestC04LongConcurrent", quick=dict(shards=1, timeout=900), thorough=dict(shards=1, timeout=3600)),
     direct("long-concurrent-race", "TestC04LongConcurrent", race=True, tiers=["thorough"]),
     rapid("rapid", "TestC04", dict(shards=16, checks=200), dict(shards=16, checks=4000, timeout=7000)),
